@@ -34,7 +34,7 @@ with ProcessPoolExecutor(16) as ex:
 out = {}
 for s in seeds:
     row = res[s]
-    own = s.split('-')[0]
+    own = json.load(open(f'/verif/seeded/{s}/meta.json'))['property']
     if row is None:
         print(s, 'PATCH DOES NOT APPLY'); continue
     d = {k: v for k, v in row.items()}
